@@ -146,9 +146,9 @@ theorem extendedInfo_strict : Strict.extendedInfo extendedInfo = .ok () := by
     with and without the extended part and the auto-logon flag, the strict MS-RDPBCGR
     decoder accepts the emitted Client Info PDU: every cb* count equals the size of its
     string, every string is null-terminated, the extended part is complete. -/
-theorem c04_clientInfo_strict (ext auto : Bool) (d u p : List Char)
+theorem c04_clientInfo_strict (ini : Nat) (ext auto : Bool) (d u p : List Char)
     (hd : (utf16le d).length < 65536) (hu : (utf16le u).length < 65536) (hp : (utf16le p).length < 65536) :
-    Strict.sdrqUserData 0 (clientInfo ext auto d u p) = .ok () := by
+    Strict.sdrqUserData ini (clientInfo ext auto d u p) = .ok () := by
   have hflag : infoFlags auto / 0x10 % 2 = 1 := by cases auto <;> decide
   unfold sdrqUserData
   have hhead : (clientInfo ext auto d u p).take 4 = [0x40, 0, 0, 0] := by
@@ -361,5 +361,29 @@ theorem c04_connectInitial_strict (w h layout selected : Nat) (name : List Char)
   rw [if_pos (by simp [hlen, leNat])]
   simp only [List.cons_append, List.nil_append]
   rw [hm, hci]
+
+/-- erect-domain, attach-user and the disconnect ultimatum are fixed frames accepted by the
+    strict decoder -/
+theorem c04_fixed_frames_strict :
+    (∃ f, x224Frame erectDomain = .ok f ∧ Strict.frame f = .ok ()) ∧
+    (∃ f, x224Frame attachUser = .ok f ∧ Strict.frame f = .ok ()) ∧
+    (∃ f, x224Frame Mcs.disconnectUltimatum = .ok f ∧ Strict.frame f = .ok ()) := by
+  refine ⟨⟨_, rfl, rfl⟩, ⟨_, rfl, rfl⟩, ⟨_, rfl, rfl⟩⟩
+
+/-- a channel-join request is accepted for every assigned user id and channel -/
+theorem c04_join_strict (uid chan : Nat) (h : 1001 ≤ uid) :
+    ∃ p f, channelJoin uid chan = .ok p ∧ x224Frame p = .ok f ∧ Strict.frame f = .ok () := by
+  have hj : channelJoin uid chan = .ok ([0x38] ++ be16 (uid - 1001) ++ be16 chan) := by
+    simp [channelJoin, checkedSub, h]
+  have hab : be16 (uid - 1001) = [UInt8.ofNat ((uid - 1001) / 256 % 256), UInt8.ofNat ((uid - 1001) % 256)] := by simp [be16, encInt, leBytes]
+  have hcd : be16 chan = [UInt8.ofNat (chan / 256 % 256), UInt8.ofNat (chan % 256)] := by simp [be16, encInt, leBytes]
+  generalize UInt8.ofNat ((uid - 1001) / 256 % 256) = a at hab
+  generalize UInt8.ofNat ((uid - 1001) % 256) = b at hab
+  generalize UInt8.ofNat (chan / 256 % 256) = c at hcd
+  generalize UInt8.ofNat (chan % 256) = d at hcd
+  refine ⟨[0x38, a, b, c, d], [3, 0, 0, 12, 2, 0xf0, 0x80, 0x38, a, b, c, d], ?_, ?_, ?_⟩
+  · rw [hj, hab, hcd]; rfl
+  · simp [x224Frame, x224DataHeader, tpktHeader]
+  · simp [Strict.frame, takeN, bind, Except.bind, need, leNat, mcsPdu]
 
 end Rdp.Emit
